@@ -290,9 +290,49 @@ func c18(c *Ctx) {
 	if fn := c.Fn(px, "R4", "(*collector).getName"); fn != nil {
 		g := px.FG(fn)
 		match := func(pred func(ast.Node) bool) []*GNode { return g.Match(pred) }
+		unitTbl := px.Pkg.Types.Scope().Lookup("unitSuffixes")
+		counterSfx := px.Pkg.Types.Scope().Lookup("counterSuffix")
+		fNS := lookupField(px.Pkg, "collector", "namespace")
+		fNoUnits := lookupField(px.Pkg, "collector", "withoutUnits")
+		fNoCounter := lookupField(px.Pkg, "collector", "withoutCounterSuffixes")
+		if unitTbl == nil || counterSfx == nil || fNS == nil || fNoUnits == nil || fNoCounter == nil {
+			c.Missing("R4", "prometheus|getName|anchors: unitSuffixes / counterSuffix / collector.{namespace,withoutUnits,withoutCounterSuffixes} not found")
+		}
+		mentions := func(e ast.Node, objs map[types.Object]bool) bool {
+			hit := false
+			ast.Inspect(e, func(n ast.Node) bool {
+				if id, ok := n.(*ast.Ident); ok && objs[info.Uses[id]] {
+					hit = true
+				}
+				return true
+			})
+			return hit
+		}
+		// the unit word: locals defined from unitSuffixes[...], and the "known unit" flag of the comma-ok form
+		unitObjs, unitOK := map[types.Object]bool{}, map[types.Object]bool{}
+		ast.Inspect(fn.Body(), func(n ast.Node) bool {
+			as, ok := n.(*ast.AssignStmt)
+			if !ok || len(as.Rhs) != 1 {
+				return true
+			}
+			ie, ok := unparen(as.Rhs[0]).(*ast.IndexExpr)
+			if !ok || objOf(info, ie.X) != unitTbl {
+				return true
+			}
+			if o := objOf(info, as.Lhs[0]); o != nil {
+				unitObjs[o] = true
+			}
+			if len(as.Lhs) == 2 {
+				if o := objOf(info, as.Lhs[1]); o != nil {
+					unitOK[o] = true
+				}
+			}
+			return true
+		})
+		cs := map[types.Object]bool{counterSfx: true}
 		trim := match(func(n ast.Node) bool {
 			call, ok := n.(*ast.CallExpr)
-			return ok && isCallTo(info, call, "strings.TrimSuffix") && len(call.Args) == 2 && strings.Contains(exprStr(call.Args[1]), "counterSuffix")
+			return ok && isCallTo(info, call, "strings.TrimSuffix") && len(call.Args) == 2 && mentions(call.Args[1], cs)
 		})
 		ns := match(func(n ast.Node) bool {
 			as, ok := n.(*ast.AssignStmt)
@@ -303,19 +343,36 @@ func c18(c *Ctx) {
 			if !isBin || be.Op != token.ADD {
 				return false
 			}
-			fv, _ := fieldOf(info, be.X)
-			return fv != nil && fv.Name() == "namespace" && len(as.Lhs) == 1 && sameVar(info, as.Lhs[0], objOf(info, be.Y))
+			return isField(info, be.X, fNS) && len(as.Lhs) == 1 && sameVar(info, as.Lhs[0], objOf(info, be.Y))
 		})
-		unit := match(func(n ast.Node) bool {
+		// an append step: name += X or name = name + X
+		appendOf := func(n ast.Node, objs map[types.Object]bool) bool {
 			as, ok := n.(*ast.AssignStmt)
-			return ok && as.Tok == token.ADD_ASSIGN && strings.Contains(exprStr(as.Rhs[0]), "suffix") && !strings.Contains(exprStr(as.Rhs[0]), "counterSuffix")
-		})
-		total := match(func(n ast.Node) bool {
-			as, ok := n.(*ast.AssignStmt)
-			return ok && as.Tok == token.ADD_ASSIGN && strings.Contains(exprStr(as.Rhs[0]), "counterSuffix")
-		})
+			if !ok || len(as.Lhs) != 1 || len(as.Rhs) != 1 {
+				return false
+			}
+			if as.Tok == token.ADD_ASSIGN {
+				return mentions(as.Rhs[0], objs)
+			}
+			be, isBin := unparen(as.Rhs[0]).(*ast.BinaryExpr)
+			if as.Tok != token.ASSIGN || !isBin || be.Op != token.ADD {
+				return false
+			}
+			lo := objOf(info, as.Lhs[0])
+			first := be.X
+			for {
+				b2, ok := unparen(first).(*ast.BinaryExpr)
+				if !ok || b2.Op != token.ADD {
+					break
+				}
+				first = b2.X
+			}
+			return lo != nil && sameVar(info, first, lo) && mentions(be, objs)
+		}
+		unit := match(func(n ast.Node) bool { return appendOf(n, unitObjs) })
+		total := match(func(n ast.Node) bool { return appendOf(n, cs) })
 		good := len(trim) == 1 && len(ns) == 1 && len(unit) == 1 && len(total) == 1
-		why := "steps not found"
+		why := "steps not found (trim " + itoa(len(trim)) + ", namespace " + itoa(len(ns)) + ", unit " + itoa(len(unit)) + ", _total " + itoa(len(total)) + ")"
 		if good {
 			order := [][]*GNode{trim, ns, unit, total}
 			names := []string{"trim", "namespace", "unit", "_total"}
@@ -330,42 +387,68 @@ func c18(c *Ctx) {
 		}
 		c.Check(good, "R4", "prometheus|getName|step order trim → namespace → unit → _total", at(px.M, fn.Pos()), "suffixes end the name in the specified order", "name construction order changed: "+why)
 		if len(unit) == 1 {
-			// the unit step: under !withoutUnits and !HasSuffix(name, suffix)
-			cond := ""
-			for _, e := range unit[0].Preds {
-				_ = e
+			// the unit step runs only across edges that establish: units enabled, unit known, name does not already end with the unit word
+			isPresentTest := func(cnd ast.Expr) bool {
+				call, ok := cnd.(*ast.CallExpr)
+				return ok && isCallTo(info, call, "strings.HasSuffix") && len(call.Args) == 2 && mentions(call.Args[1], unitObjs)
 			}
-			inspectNoLit(fn.Body(), func(nd ast.Node) bool {
-				if is, ok := nd.(*ast.IfStmt); ok && is.Body.Pos() <= unit[0].N.Pos() && unit[0].N.End() <= is.Body.End() {
-					cond = exprStr(is.Cond)
+			dom := func(atom func(cnd ast.Expr, pol int) bool) bool {
+				ok, _ := g.DominatedByEdges(unit[0], func(e *GEdge) bool { return g.edgeImpliesDeep(e, atom) })
+				return ok
+			}
+			enabled := dom(func(cnd ast.Expr, pol int) bool { return pol < 0 && isField(info, cnd, fNoUnits) })
+			known := dom(func(cnd ast.Expr, pol int) bool {
+				if id, ok := cnd.(*ast.Ident); ok && pol > 0 && unitOK[info.Uses[id]] {
+					return true
 				}
-				return true
+				// plain-index form: suffix != ""
+				if l, op, r, ok := cmpNorm(cnd, pol); ok && op == token.NEQ {
+					return (mentions(l, unitObjs) && exprStr(r) == `""`) || (mentions(r, unitObjs) && exprStr(l) == `""`)
+				}
+				return false
 			})
-			c.Check(strings.Contains(cond, "!c.withoutUnits") && strings.Contains(cond, "!strings.HasSuffix(name, suffix)") && strings.HasPrefix(cond, "ok"), "R4", "prometheus|getName|unit suffix only when enabled, known and not already present", at(px.M, unit[0].N.Pos()), cond,
-				"unit suffix condition changed ("+cond+"): suffix duplicated or forced")
-		}
-		if len(total) == 1 && len(trim) == 1 {
-			// both counter steps dominated by the addCounterSuffix flag = !withoutCounterSuffixes && type == COUNTER
-			var flag types.Object
-			def := ""
-			inspectNoLit(fn.Body(), func(nd ast.Node) bool {
-				if as, ok := nd.(*ast.AssignStmt); ok && as.Tok == token.DEFINE && len(as.Lhs) == 1 && len(as.Rhs) == 1 {
-					if strings.Contains(exprStr(as.Rhs[0]), "withoutCounterSuffixes") {
-						flag = objOf(info, as.Lhs[0])
-						def = exprStr(as.Rhs[0])
+			absent := dom(func(cnd ast.Expr, pol int) bool { return pol < 0 && isPresentTest(cnd) })
+			c.Check(enabled && known && absent, "R4", "prometheus|getName|unit suffix only when enabled, known and not already present", at(px.M, unit[0].N.Pos()),
+				"enabled="+boolStr(enabled)+" known="+boolStr(known)+" absent="+boolStr(absent),
+				"unit suffix condition changed (units enabled: "+boolStr(enabled)+", unit known: "+boolStr(known)+", not already present: "+boolStr(absent)+"): suffix duplicated or forced")
+			// the already-present test looks at the name after 'total' has been trimmed: the trim is not reachable from the test
+			if len(trim) == 1 {
+				tests := match(func(n ast.Node) bool { e, ok := n.(ast.Expr); return ok && isPresentTest(unparen(e)) })
+				okT := len(tests) >= 1
+				for _, t := range tests {
+					s, _ := g.Reach([]*GNode{t}, nil, nil)
+					if s[trim[0]] {
+						okT = false
 					}
 				}
-				return true
-			})
-			ok1, ok2 := false, false
-			if flag != nil {
-				edge := func(e *GEdge) bool {
-					return edgeImplies(e, func(cnd ast.Expr, pol int) bool { return pol > 0 && sameVar(info, cnd, flag) })
-				}
-				ok1, _ = g.DominatedByEdges(trim[0], edge)
-				ok2, _ = g.DominatedByEdges(total[0], edge)
+				c.Check(okT, "R4", "prometheus|getName|already-has-unit test sees the name with 'total' trimmed", at(px.M, fn.Pos()), itoa(len(tests))+" test site(s), none before the trim",
+					"the test for an existing unit suffix runs before the trailing 'total' is trimmed: a counter named <x>_<unit>_total gets the unit word twice")
 			}
-			c.Check(ok1 && ok2 && strings.Contains(def, "!c.withoutCounterSuffixes") && strings.Contains(def, "MetricType_COUNTER"), "R4", "prometheus|getName|'total' trimmed and '_total' appended only for counters with suffixes enabled", at(px.M, fn.Pos()), def,
+		}
+		if len(total) == 1 && len(trim) == 1 {
+			// both counter steps run only for counters with suffixes enabled
+			gate := func(n *GNode) (bool, bool) {
+				a, _ := g.DominatedByEdges(n, func(e *GEdge) bool {
+					return g.edgeImpliesDeep(e, func(cnd ast.Expr, pol int) bool { return pol < 0 && isField(info, cnd, fNoCounter) })
+				})
+				b, _ := g.DominatedByEdges(n, func(e *GEdge) bool {
+					return g.edgeImpliesDeep(e, func(cnd ast.Expr, pol int) bool {
+						l, op, r, ok := cmpNorm(cnd, pol)
+						if !ok || op != token.EQL {
+							return false
+						}
+						isCounter := func(x ast.Expr) bool {
+							tv, has := info.Types[x]
+							return has && tv.Value != nil && strings.HasSuffix(exprStr(x), "MetricType_COUNTER")
+						}
+						return isCounter(l) || isCounter(r)
+					})
+				})
+				return a, b
+			}
+			a1, b1 := gate(trim[0])
+			a2, b2 := gate(total[0])
+			c.Check(a1 && b1 && a2 && b2, "R4", "prometheus|getName|'total' trimmed and '_total' appended only for counters with suffixes enabled", at(px.M, fn.Pos()), "both steps gated by !withoutCounterSuffixes && type == COUNTER",
 				"the counter suffix steps are no longer gated by (!withoutCounterSuffixes && type == COUNTER)")
 		}
 		// unit table
@@ -404,7 +487,7 @@ func c18(c *Ctx) {
 		}
 	}
 
-	c.Rule("R5", "E3 pairing", "getAttrs appends keys and values pairwise in both branches and sorts collided values before joining; histogram buckets are running sums over BucketCounts by bound index", 3)
+	c.Rule("R5", "E3 pairing", "getAttrs appends keys and values pairwise in both branches and sorts collided values before joining; histogram buckets are running sums over BucketCounts by bound index; exponential bucket i ↦ native key Offset+i+1 on both sides", 6)
 	if fn := c.Fn(px, "R5", "getAttrs"); fn != nil {
 		res := fn.Obj.Type().(*types.Signature).Results()
 		_ = res
@@ -423,7 +506,7 @@ func c18(c *Ctx) {
 			}
 		}
 		ka, va := g.Match(isApp(keysV)), g.Match(isApp(valsV))
-		good := len(ka) == 2 && len(va) == 2
+		good := len(ka) >= 2 && len(va) >= 2
 		if good {
 			// each key append is followed by a value append before the loop iterates (and vice versa not skipped)
 			for _, k := range ka {
@@ -436,6 +519,47 @@ func c18(c *Ctx) {
 			}
 		}
 		c.Check(good, "R5", "prometheus|getAttrs|keys and values appended pairwise", at(px.M, fn.Pos()), "label names and values stay aligned", "a label name can be appended without its value: label/value lists go out of step")
+		// when names are sanitised (the scheme is not UTF-8), every label name of the result is a key of the collision map:
+		// a name appended on that side must be the key variable of a range over a map
+		{
+			isUTF8 := func(cnd ast.Expr, pol int) bool {
+				l, op, r, ok := cmpNorm(cnd, pol)
+				if !ok || op != token.EQL {
+					return false
+				}
+				s := exprStr(l) + " " + exprStr(r)
+				return strings.Contains(s, "NameValidationScheme") && strings.Contains(s, "UTF8Validation")
+			}
+			legacy, _ := g.ReachFromEntry(nil, func(e *GEdge) bool { return edgeImplies(e, isUTF8) })
+			okMerge, nLegacy := true, 0
+			for _, k := range ka {
+				if !legacy[k] {
+					continue
+				}
+				nLegacy++
+				as := k.N.(*ast.AssignStmt)
+				call := unparen(as.Rhs[0]).(*ast.CallExpr)
+				fromMap := false
+				if len(call.Args) == 2 {
+					arg := objOf(info, call.Args[1])
+					ast.Inspect(fn.Body(), func(nd ast.Node) bool {
+						rs, ok := nd.(*ast.RangeStmt)
+						if !ok || rs.Key == nil || rs.Body.Pos() > as.Pos() || as.End() > rs.Body.End() {
+							return true
+						}
+						if _, isMap := info.Types[rs.X].Type.Underlying().(*types.Map); isMap && arg != nil && objOf(info, rs.Key) == arg {
+							fromMap = true
+						}
+						return true
+					})
+				}
+				if !fromMap {
+					okMerge = false
+				}
+			}
+			c.Check(okMerge && nLegacy >= 1, "R5", "prometheus|getAttrs|sanitised names all pass through the collision map", at(px.M, fn.Pos()), itoa(nLegacy)+" append(s) on the sanitising side, each of a map key",
+				"on the sanitising side a label name is appended without passing through the collision map: two attribute keys that sanitise to the same name yield a duplicate label (the series is rejected)")
+		}
 		sorted := false
 		inspectNoLit(fn.Body(), func(nd ast.Node) bool {
 			if call, ok := nd.(*ast.CallExpr); ok && (isCallTo(info, call, "slices.Sort") || isCallTo(info, call, "sort.Strings")) {
@@ -473,5 +597,51 @@ func c18(c *Ctx) {
 			return true
 		})
 		c.Check(good, "R5", "prometheus|addHistogramMetric|buckets[bound] = running sum of BucketCounts[i]", at(px.M, fn.Pos()), "Prometheus cumulative buckets", "histogram buckets are no longer cumulative sums indexed by the bound's position")
+	}
+	// exponential histograms: OTel bucket j covers (base^j, base^(j+1)], Prometheus native bucket k covers (base^(k-1), base^k]:
+	// the count of position i goes to key Offset + i + 1, on the positive and the negative side alike
+	if fn := c.Fn(px, "R5", "addExponentialHistogramMetric"); fn != nil {
+		n := 0
+		ast.Inspect(fn.Body(), func(nd ast.Node) bool {
+			rs, ok := nd.(*ast.RangeStmt)
+			if !ok || rs.Key == nil {
+				return true
+			}
+			src := exprStr(rs.X)
+			var side string
+			switch {
+			case strings.HasSuffix(src, ".PositiveBucket.Counts"):
+				side = "PositiveBucket"
+			case strings.HasSuffix(src, ".NegativeBucket.Counts"):
+				side = "NegativeBucket"
+			default:
+				return true
+			}
+			base := strings.TrimSuffix(src, ".Counts")
+			keyName := exprStr(rs.Key)
+			ast.Inspect(rs.Body, func(m ast.Node) bool {
+				as, ok := m.(*ast.AssignStmt)
+				if !ok || len(as.Lhs) != 1 {
+					return true
+				}
+				ie, ok := unparen(as.Lhs[0]).(*ast.IndexExpr)
+				if !ok {
+					return true
+				}
+				if _, isMap := info.Types[ie.X].Type.Underlying().(*types.Map); !isMap {
+					return true
+				}
+				n++
+				terms, k := linearForm(info, ie.Index)
+				good := k == 1 && len(terms) == 2 && terms[base+".Offset"] == 1 && terms[keyName] == 1
+				c.Check(good, "R5", "prometheus|addExponentialHistogramMetric|"+side+" count i ↦ key Offset+i+1", at(px.M, as.Pos()), exprStr(ie.Index),
+					side+" counts are stored under "+exprStr(ie.Index)+", not Offset+i+1: every observation on that side is exposed in a neighbouring bucket")
+				return true
+			})
+			return true
+		})
+		if n != 2 {
+			c.Undecided("R5", "prometheus|addExponentialHistogramMetric|both sides converted", at(px.M, fn.Pos()), itoa(n)+" bucket stores found, expected 2")
+		}
 	}
 }
